@@ -505,23 +505,24 @@ Init == /\ rows = <<>> /\ stats = <<>> /\ nAcc = 0 /\ nRej = 0 /\ gcnt = F(0)
         /\ first \in UNION {{<<b, m, c, <<>> >> : m \in Block(b).metrics, c \in Block(b).counters} : b \in Blocks}
                       \cup {<<"script", "", "", Script[j]>> : j \in DOMAIN Script}
 
+(* The decision is computed once, into last'; the other variables are updated from it.
+   (TLC re-evaluates an action-level LET at every use, a primed variable is a lookup.) *)
+MkLast(e) == LET d == Decide(e) IN
+             [any |-> TRUE, ev |-> e, dec |-> d, valid |-> Valid(e), true |-> TrueReasons(e),
+              dual |-> MetricOf(e.m).dual]
+ApplyRows(r, d, pct) == [k \in DOMAIN r \cup d.rowkeys |->
+                           IF k \in d.rowkeys THEN MergeAgg(IF k \in DOMAIN r THEN r[k] ELSE Agg0, d.contrib, pct)
+                           ELSE r[k]]
+ApplyStats(st, emit) == [k \in DOMAIN st \cup emit |->
+                           (IF k \in DOMAIN st THEN st[k] ELSE 0) + (IF k \in emit THEN 1 ELSE 0)]
 IngestCore(m, c, p, t, s) ==
-  LET e  == Ev(m, c, p, t, s)
-      d  == Decide(e)
-      md == MetricOf(m)
-      rows1 == [k \in DOMAIN rows \cup d.rowkeys |->
-                  IF k \in d.rowkeys THEN MergeAgg(IF k \in DOMAIN rows THEN rows[k] ELSE Agg0, d.contrib, md.pct)
-                  ELSE rows[k]]
-      stats1 == [k \in DOMAIN stats \cup d.emit |->
-                  (IF k \in DOMAIN stats THEN stats[k] ELSE 0) + (IF k \in d.emit THEN 1 ELSE 0)] IN
-  /\ rows' = rows1
-  /\ stats' = stats1
-  /\ nAcc' = nAcc + (IF d.accept THEN 1 ELSE 0)
-  /\ nRej' = nRej + (IF d.accept THEN 0 ELSE 1)
-  /\ gcnt' = IF d.contrib.present /\ d.contrib.cexact
-             THEN RAdd(gcnt, RMul(d.contrib.cnt, F(Cardinality(d.rowkeys)))) ELSE gcnt
-  /\ last' = [any |-> TRUE, ev |-> e, dec |-> d, valid |-> Valid(e), true |-> TrueReasons(e),
-              rowsSame |-> (rows1 = rows), dual |-> md.dual]
+  /\ last' = MkLast(Ev(m, c, p, t, s))
+  /\ rows' = ApplyRows(rows, last'.dec, MetricOf(m).pct)
+  /\ stats' = ApplyStats(stats, last'.dec.emit)
+  /\ nAcc' = nAcc + (IF last'.dec.accept THEN 1 ELSE 0)
+  /\ nRej' = nRej + (IF last'.dec.accept THEN 0 ELSE 1)
+  /\ gcnt' = IF last'.dec.contrib.present /\ last'.dec.contrib.cexact
+             THEN RAdd(gcnt, RMul(last'.dec.contrib.cnt, F(Cardinality(last'.dec.rowkeys)))) ELSE gcnt
 
 RowsOut(r)  == {[key |-> k, agg |-> r[k]] : k \in DOMAIN r}
 StatsOut(s) == {[key |-> k, n |-> s[k]] : k \in DOMAIN s}
@@ -563,7 +564,8 @@ Spec == Init /\ [][Next]_vars
 (* Invariants: the mechanism satisfies the property *)
 OnlyIf        == last.any => (last.dec.accept => last.valid)            \* contributes only if valid
 Total_        == last.any => (last.valid => last.dec.accept)            \* and nothing valid is refused
-NoRowIfReject == last.any => (~last.dec.accept => (last.rowsSame /\ last.dec.rowkeys = {}))
+NoRowIfReject == last.any => (~last.dec.accept => last.dec.rowkeys = {})
+NoRowIfRejectAct == [][~last'.dec.accept => rows' = rows]_vars     \* a rejected event changes no row
 OneRecord     == last.any => (~last.dec.accept =>
                     /\ Cardinality(last.dec.emit) = (IF last.dual /\ \E k \in last.dec.emit : k.sh = "p" THEN 2 ELSE 1)
                     /\ \A k \in last.dec.emit : <<k.st, k.k>> \in last.true /\ IsErr(k.st))
